@@ -2,6 +2,7 @@ package main
 
 import (
 	"bufio"
+	"encoding/hex"
 	"bytes"
 	"crypto/sha1"
 	"encoding/json"
@@ -341,6 +342,17 @@ func (r *runner) confirmReplay(v *violation, file string) (bool, string) {
 		}(k)
 	}
 	wg.Wait()
+	broken := 0
+	for k := 0; k < 3; k++ {
+		if got[k] == "" && errs[k] != nil && !v.crash {
+			broken++
+		}
+	}
+	if broken == 3 {
+		// the replay itself could not be executed (the worker died on the replay path): the candidate is
+		// reported as observed during the exploration rather than silently dropped
+		return true, v.Obs + " [replay could not be executed: " + errs[0].Error() + "; reported as observed]"
+	}
 	for k := 0; k < 3; k++ {
 		if got[k] == "" {
 			return false, fmt.Sprintf("replay %d did not reproduce (%v)", k, errs[k])
@@ -465,6 +477,8 @@ func cmdRun(prop, tier string) int {
 		for _, sr := range sres {
 			if sr != nil && stg.Build == "race" && strings.Contains(sr.stderr, "DATA RACE") {
 				raceReports = append(raceReports, firstRaceReport(sr.stderr))
+			} else if sr != nil && stg.Build == "race" && strings.Contains(sr.stderr, "fatal error: concurrent map") {
+				raceReports = append(raceReports, "fatal error: concurrent map access while applications run in different goroutines | "+firstLine(sr.stderr[strings.Index(sr.stderr, "fatal error: concurrent map"):]))
 			}
 			if sr != nil {
 				for i := range sr.viols {
@@ -546,7 +560,7 @@ func cmdRun(prop, tier string) int {
 			}
 			seen[key] = true
 			cands = append(cands, &violation{Prop: prop, Key: key, crash: true, shard: l.Shard, ordinal: l.Ordinal,
-				Case: map[string]interface{}{"check": r.check, "crash_case": strings.Join(parts, " | "), "crash_parts": parts, "tier": tier},
+				Case: map[string]interface{}{"check": r.check, "crash_case": strings.Join(parts, " | "), "crash_parts": parts, "crash_parts_hex": hexAll(parts), "tier": tier},
 				Exp:  "terminates promptly with a documented outcome", Obs: l.Reason})
 		}
 	}
@@ -746,4 +760,12 @@ func replayDir() string {
 		return filepath.Join(buildDir, "mut-replays")
 	}
 	return filepath.Join(verifDir, "replays")
+}
+
+func hexAll(parts []string) []string {
+	var out []string
+	for _, p := range parts {
+		out = append(out, hex.EncodeToString([]byte(p)))
+	}
+	return out
 }
